@@ -84,16 +84,30 @@ class Prov:
                                     self.elems[name] = src
             # entries fetched from the table
             if n.get("k") in ("Let", "SLet") and n.get("init") is not None:
-                s = self.sym(n["init"])
-                if s[0] == "call" and str(s[1]).endswith("HashMap::<K, V, S, A>::get") or \
-                        (s[0] == "call" and str(s[1]).endswith("<K, V, S, A>::get")):
+                key = self._table_key(self.sym(n["init"]))
+                if key is not None:
                     for name, ty, _id in pat_bindings(n["pat"]):
-                        self.cached[name] = hir.fmt(s[2][1], 80)
+                        self.cached[name] = key
+            # ... or taken out of a fetched Option by a match (`match table.get(k) { Some(entry) if .. => .. }`, also via a local)
+            if n.get("k") == "Match" and n.get("src") in (None, "Normal"):
+                key = self._table_key(self.sym(n["e"]))
+                if key is not None:
+                    for a in n["arms"]:
+                        for name, ty, _id in pat_bindings(a["pat"]):
+                            self.cached[name] = key
             # mutations of buffers
             if n.get("k") == "MethodCall":
                 r = hir.strip(n["recv"])
                 if r.get("k") == "Path" and r["to"].get("name") in self.buffers and n["name"] in BUF_MUTATORS_BAD:
                     self.bad_mutations.append((r["to"]["name"], n["name"], hir.line(n)))
+
+    def _table_key(self, s):
+        """key text when normal form s is `table.get(key)` or a local holding such a lookup result, else None"""
+        if s[0] == "call" and (str(s[1]).endswith("HashMap::<K, V, S, A>::get") or str(s[1]).endswith("<K, V, S, A>::get")) and len(s[2]) >= 2:
+            return hir.fmt(s[2][1], 80)
+        if s[0] == "var" and s[1] in self.cached:
+            return self.cached[s[1]]
+        return None
 
     def _iter_source(self, t):
         """Buffer name an iterator expression ranges over (through iter/enumerate/deref/ref)."""
@@ -134,6 +148,9 @@ class Prov:
                 classes = [self.classify(d, depth + 1) for d in ds]
                 kinds = sorted({c[0] for c in classes})
                 return ("var:" + "|".join(kinds), classes)
+        if s[0] == "call" and str(s[1]).endswith("and_then") and len(s[2]) == 2 and self._table_key(s[2][0]) is not None and \
+                s[2][1][0] == "closure" and len(s[2][1][1]) == 1 and s[2][1][2] == ("field", ("var", s[2][1][1][0]), "pv"):
+            return ("cached", txt)
         if s[0] == "call" and str(s[1]).endswith("and_then") and "entry.pv" in txt and "HashMap" in txt or \
                 (s[0] == "call" and str(s[1]).endswith("and_then") and ".pv" in txt and "::get(table" in txt):
             return ("cached", txt)
